@@ -18,7 +18,9 @@ RULE = ('alphabet A={a,A,b,1,-,_,e-acute,E-acute}; X in A^<=n as a literal '
         'non-trivial = non-empty X and non-empty role list.')
 RULE += (
          ' Plus `debuglog`: the role table for 1-letter and two 2-letter'
-         ' names again with every oslo_policy logger at DEBUG.')
+         ' names again with every oslo_policy logger at DEBUG.'
+         ' Plus punct: names <= 3 over {a,B,colon,dot,slash,at} literally'
+         ' and through a placeholder against near-miss role lists.')
 ASSUMPTIONS = ['alphabet restricted to characters with one-to-one case maps '
                '(as the property states)']
 
@@ -64,6 +66,7 @@ def plan(tier, seed):
                      'tier': tier, 'weight': (hi - lo) * 6})
     jobs.append({'space': 'mutate', 'tier': tier, 'weight': 50})
     jobs.append({'space': 'debuglog', 'tier': tier, 'weight': 200})
+    jobs.append({'space': 'punct', 'tier': tier, 'weight': 300})
     if b.get('lists3'):
         for lo, hi in core.chunks(len(words(2)), 32):
             jobs.append({'space': 'lists3', 'lo': lo, 'hi': hi, 'tier': tier,
@@ -153,6 +156,40 @@ def run(job, seed):
         acc.sample(space, {'x': form, 'target': target, 'roles': rl})
     elif space == 'mutate':
         run_mutate(acc, enf, 3 if job['tier'] == 'quick' else 4)
+    elif space == 'punct':
+        # role names built from a second alphabet: a letter and the
+        # punctuation real role names carry (service:role, a.b, a/b, a@b) -
+        # the colon in particular is also the kind/match separator
+        P2 = ['a', 'B', ':', '.', '/', '@']
+        ws = ['']
+        for k in range(1, 4):
+            ws.extend(''.join(p) for p in itertools.product(P2, repeat=k))
+        near = {}
+        for x in ws:
+            near.setdefault(x.lower(), []).append(x)
+        for x in ws:
+            _set(enf, x)
+            # role lists: none, empty, the name itself, its case variants,
+            # every name one edit away, and pairs of those
+            cands = sorted(set([x, x.upper(), x.lower(), x[1:], x[:-1],
+                                x + ':', ':' + x, x + 'a', x.replace(':', '.'),
+                                x.split(':')[0], x.split(':')[-1]]))
+            lists = [None, []] + [[c] for c in cands] + \
+                [[cands[0], c] for c in cands[1:]]
+            for rl in lists:
+                exp = rleaf.role_allows(x, {}, _creds(rl))
+                acc.case(space, bool(x) and bool(rl))
+                _check(acc, enf, space, CONTEXTS, {}, rl, exp,
+                       {'x': x, 'roles': rl})
+            # and the same names through a placeholder
+            _set(enf, '%(k)s')
+            for rl in ([x], [x.upper()], [x + 'a'], []):
+                target = {'k': x}
+                exp = rleaf.role_allows('%(k)s', target, _creds(rl))
+                acc.case(space, bool(x))
+                _check(acc, enf, space, CONTEXTS[:2], target, rl, exp,
+                       {'x': '%(k)s', 'target': target, 'roles': rl})
+        acc.sample(space, {'x': 'a:B', 'roles': ['A:b']})
     elif space == 'debuglog':
         # the same decisions with every oslo_policy logger at DEBUG and a
         # handler that formats each record
